@@ -8,6 +8,7 @@ import TracklibVerif.Lemmas.CinTabMore
 import TracklibVerif.Lemmas.CinTabZone
 import TracklibVerif.Lemmas.CinTabSt
 import TracklibVerif.Lemmas.CinTabKOpt
+import TracklibVerif.Lemmas.CinTabKErr
 import Mathlib.Analysis.Real.Sqrt
 /-! # C17 — curvilinear abscissa and speed features match their geometric definitions
 
@@ -761,6 +762,24 @@ theorem curvabs_table_class (L : Laws I n rd co) (T : Trig α) (eRef eAttr : Err
   rw [curvAbsK_read L (optG sqrt ofNat isNaN) hK s hI, hx, hy, hz, hn,
     curvFK_opt sqrt ofNat isNaN (dist2C T c) P _ (by omega)]
 
+/-- **ECEF tracks on the feature table** (any lawful table — shared observations included — of `n ≥ 2` fixes; `eRef` /
+`eAttr` are whatever `Err` stands for `raise CoordTypeError` / `AttributeError`, not an `IndexError`):
+* no `ds` listed: `computeAbsCurv` ends in the refusal of `Obs.distance2DTo` raised at fix 1; afterwards a `ds` column IS
+  listed (created before the loop of `addAnalyticalFeature`) whose value at fix 0 is the `0` computed there, `abs_curv` is
+  not created, every other name reads as before;
+* no `speed` listed: `estimate_speed` ends in the `AttributeError` of `position.distance2DTo` at fix 0; a `speed` column
+  stays listed, every other name reads as before;
+in both cases the coordinates, the times, the number of fixes and the invariant are unchanged. (The statement of C17 does
+not apply to ECEF tracks — they define no planimetric distance; noted: a SECOND call finds the column and returns it.) -/
+theorem ecef_refused_table (L : Laws I n rd co) (T : Trig α) (eRef eAttr : Err) (hr : eRef ≠ .index) (ha : eAttr ≠ .index)
+    (sqrt : α → α) (ofNat : Nat → α) (isNaN : α → Bool) (s : σ) (hI : I s) (h2 : 2 ≤ n s) :
+    (rd s "ds" = none → ∃ s' col, (computeAbsCurvK (optG sqrt ofNat isNaN) (clsKernel T eRef eAttr .ecef) : M σ _) s = (.error eRef, s')
+        ∧ I s' ∧ n s' = n s ∧ co s' = co s ∧ rd s' "ds" = some col ∧ col[0]? = some (some 0) ∧ ∀ m, m ≠ "ds" → rd s' m = rd s m)
+    ∧ (rd s "speed" = none → ∃ s' col, (estimateSpeedK (optG sqrt ofNat isNaN) (clsKernel T eRef eAttr .ecef) : M σ _) s = (.error eAttr, s')
+        ∧ I s' ∧ n s' = n s ∧ co s' = co s ∧ rd s' "speed" = some col ∧ ∀ m, m ≠ "speed" → rd s' m = rd s m) :=
+  ⟨fun hds => computeAbsCurvK_refused L (optG sqrt ofNat isNaN) (clsKernel T eRef eAttr .ecef) eRef rfl hr s hI h2 hds,
+   fun hsp => estimateSpeedK_attr L (optG sqrt ofNat isNaN) (clsKernel T eRef eAttr .ecef) eAttr (fun _ _ _ _ _ _ => rfl) ha s hI h2 hsp⟩
+
 variable [IntCast α]
 
 /-- T1 for a Geo (or ENU) track whose observations are SHARED with other tracks, as one operation of a history on the world
@@ -969,5 +988,37 @@ example : (match (computeAbsCurvC demoT (computeAbsCurvC demoT demoEcef).2).1 wi
 example : (match (estimateSpeedC demoT (estimateSpeedC demoT demoEcef).2).1 with
     | .ok (some c) => c | _ => []) = [some 0, some 0, some 0] := by decide +kernel
 end demoCoords
+
+/-! ### non-vacuity of the class theorems on the table: the world `demoW` read as a pool of each class -/
+section demoClassWorld
+open TV.Features TV.CinTab TV.CinTabK TV.CinCoords
+open TV.Geo (V3)
+
+/-- the positions of track 0 of `demoW` -/
+def demoP : List (V3 Rat) := [⟨0, 0, 0⟩, ⟨3, 4, 0⟩, ⟨3, 4, 1⟩, ⟨6, 8, 0⟩]
+
+/-- the hypotheses of `abscurv_shared_class` / `speed_shared_class` hold for track 0 of `demoW` (`WInv`: above) -/
+example : wN { demoW with cur := 0 } = demoP.length ∧ 2 ≤ demoP.length ∧ wCo { demoW with cur := 0 } .x = xsP demoP
+    ∧ wCo { demoW with cur := 0 } .y = ysP demoP ∧ wCo { demoW with cur := 0 } .z = zsP demoP
+    ∧ wCo { demoW with cur := 0 } .t = tsOf demo.ts := by decide +kernel
+/-- as ENUCoords the class-generic step computes what `stepW` computes: 0, 5, 5, 10, foreign slots notwithstanding -/
+example : (match (stepK demoG (clsKernel demoT .type .key .enu) (.absCurv 0) demoW).1 with | .ok (.col l) => l | _ => [])
+    = [some 0, some 5, some 5, some 10] := by decide +kernel
+example : (match (stepK demoG (clsKernel demoT .type .key .enu) (.speed 0) demoW).1 with | .ok (.col l) => l | _ => [])
+    = [some (5 / 2), some (5 / 2), some (5 / 3), some (5 / 3)] := by decide +kernel
+/-- as GeoCoords (with the toy trigonometry of `demoT`): a column of four finite values starting at 0, stored under abs_curv -/
+example : (match (stepK demoG (clsKernel demoT .type .key .geo) (.absCurv 0) demoW).1 with
+    | .ok (.col l) => (l.length, l.head?, l.all Option.isSome) | _ => (0, none, false)) = (4, some (some 0), true) := by decide +kernel
+/-- as ECEFCoords: computeAbsCurv is refused, a `ds` column stays on track 0 (value 0 at fix 0), no abs_curv; estimate_speed
+raises the AttributeError; positions and stamps are what they were -/
+example : (match (stepK demoG (clsKernel demoT .type .key .ecef) (.absCurv 0) demoW).1 with | .error e => some e | _ => none)
+    = some .type := by decide +kernel
+example : (stepK demoG (clsKernel demoT .type .key .ecef) (.absCurv 0) demoW).2.trks.map (·.dico) = [[("ds", 0)], [("speed", 0)]] := by
+  decide +kernel
+example : (match (stepK demoG (clsKernel demoT .type .key .ecef) (.speed 0) demoW).1 with | .error e => some e | _ => none)
+    = some .key := by decide +kernel
+example : geom (stepK demoG (clsKernel demoT .type .key .ecef) (.absCurv 0) demoW).2 = geom demoW := by decide +kernel
+example : (Err.type ≠ Err.index) ∧ (Err.key ≠ Err.index) := by decide
+end demoClassWorld
 
 end TV.C17
